@@ -2,12 +2,12 @@
 from common import *
 
 RULE = ("designed layouts: an enzyme (BsaI / BbsI / BtgZI, each through CutWithEnzymeByName AND CutWithEnzyme, or a custom "
-        "non-palindromic site of 4..12 letters, skip 0..30, overhang 0..10 - 0 = blunt cutter; a fixed family of blunt layouts with forward/reverse cuts 0, 1 or 2 bases apart, the coincident ones being out-of-domain probes), a sequence of 20..3000 bases (log-uniform) with 0..6 planted "
+        "non-palindromic site of 4..12 letters, skip 0..30, overhang 0..10 - 0 = blunt cutter; a fixed family of blunt layouts with forward/reverse cuts 0, 1 or 2 bases apart, the coincident ones judged up to the tie reading), a sequence of 20..3000 bases (log-uniform) with 0..6 planted "
         "sites in either orientation at arbitrary spacing (adjacent sites, paired cuts exactly two overhang lengths apart, cuts leaping "
         "over neighbouring sites, homopolymer / two-letter / random ACGT filler, filler with N / IUPAC codes / U, digits, blanks, accidental sites repaired away), mixed / all-lower / all-upper letter case. "
         "Circular parts: one case = ALL rotations of the plasmid (n <= 300) or the rotations that put the origin at / next to / inside "
         "every site and every cut plus random ones (n > 300); every rotated sequence is produced by the Lean function Spec.rotl. "
-        "Linear parts; case-recasing pairs; the same flanked cassette cloned 2 or 3 times with different spacers (equal fragments: the multiset comparison counts multiplicities, List.isPerm); `hist` cases (one stored string through circular/linear, directional/non-directional calls in one process; judged and corresponded per step - only the steps whose call lies inside the quantifier count). Out-of-domain probes (non-directional, palindromic site, self-overlapping sites and sites overlapping their reverse complement, cuts too close, "
+        "Linear parts; case-recasing pairs; the same flanked cassette cloned 2 or 3 times with different spacers (equal fragments: the multiset comparison counts multiplicities, List.isPerm); `hist` cases (one stored string through circular/linear, directional/non-directional calls in one process; judged and corresponded per step - only the steps whose call lies inside the quantifier count; two call orders, one starting with the non-directional calls). Out-of-domain probes (non-directional, palindromic site, self-overlapping sites and sites overlapping their reverse complement, cuts too close, "
         "tiny and empty sequences, unknown enzyme name) are corresponded but not judged. "
         "non-trivial = at least one site occurrence; distinct by case text")
 EXHAUSTIVE = {"quick": False, "thorough": True}
@@ -19,11 +19,12 @@ ASSUMPTIONS = ["inputs are ASCII",
                "and is kept as a correspondence probe (judge skip, drift only); letters other than ACGT (N, IUPAC codes, U) are inside; "
                "non-directional digestion is outside the property (the statement speaks of directional digestion): correspondence drift only",
                "coincident cuts: with overhang 0 a forward and a backward-pointing site can cut the same bond; the property statement does not "
-               "determine the result there (is the empty stretch a fragment? does a bond cut from both sides end an earlier forward cut's stretch?), "
-               "and its quantifier speaks of paired cuts that are APART, so such layouts are read as outside the quantifier: judged skip, "
-               "correspondence drift only (a dedicated family generates them). The theorems hold there for the resolution written into the spec "
-               "(forward before reverse at the same bond, the empty stretch is reported - which is what the stable sort of the code does); inside the "
-               "quantifier the opposite resolution gives the same digestion (tie_free_circular / tie_free_linear), so no verdict depends on the choice",
+               "determine the tie there (is the empty stretch a fragment? does a bond cut from both sides end an earlier forward cut's stretch?). "
+               "Such layouts are JUDGED up to the tie reading: a reply passes when its multiset equals the digestion under either resolution "
+               "(stretch: forward before reverse at the same bond, the empty stretch is reported - what the stable sort of the code gives; stretchAlt: "
+               "the opposite), and for a circular part all rotations must give the same multiset; correspondence uses the same rule. Every other "
+               "fragment of such a layout is unambiguous and is demanded. Outside coincident layouts the two resolutions agree "
+               "(tie_free_circular / tie_free_linear). The theorems are stated for the first resolution",
                "custom enzymes carry literal (QuoteMeta) regular expressions for the site and its reverse complement"]
 PARTIAL = []
 
@@ -426,7 +427,7 @@ def cases(seed, tier):
             if name:
                 site, skip, oh = BUILTIN[name]
             if len(u) >= len(site) and (wf(u, site, skip, oh, True) or r.random() < 0.4):
-                yield ["hist"] + c[1:5] + [c[6]]
+                yield ["hist"] + c[1:5] + [c[6], str(i % 2)]    # order 1 starts with the non-directional calls
 
     # --- larger plasmids, origin at / next to / inside every site and cut
     nbig = 260 if quick else 8000
